@@ -98,7 +98,9 @@ class Builder:
 
             # Checking VCS
             vcs = get_vcs(self._path)
-            vcs_ignored_files = set(vcs.get_ignored_files()) if vcs else set()
+            vcs_ignored_files = (
+                set(vcs.get_ignored_files(folder=self._path)) if vcs else set()
+            )
 
             explicitly_excluded = set()
             for excluded_glob in self._package.exclude:
